@@ -149,9 +149,12 @@ def run(ctx):
         c.gen["kind"] = "random-cover"
         cases.append(c)
     # the maximum datagram
-    bign = 65515 if ctx.thorough else 9000
+    # (in both tiers: offsets above 4095 blocks need the 13th bit of the offset field)
+    bign = 65515 if ctx.thorough else 33400
     big = bytes(r.getrandbits(8) for _ in range(bign))
-    reqs = [("fragment", o, 185) for o in range(0, (bign + 7) // 8, 185)] + [("tail", max(0, (bign // 8) - 50))]
+    step = 185
+    reqs = [("fragment", o, step) for o in range(0, (bign + 7) // 8, step)] + [("tail", max(0, (bign // 8) - 50))] + \
+           [("fragment", 4095, 2), ("fragment", 4096, 1), ("fragment", (bign // 8) - 1, 1)]
     r.shuffle(reqs)
     c = frag_case("max", r, big, reqs, {"src": ip("10.0.0.1"), "dst": ip("10.0.0.2"), "id": 77}, False)
     c.gen["kind"] = "max-datagram"
